@@ -172,6 +172,21 @@ fn bigfromstr_ops<const N: usize>(rng: &mut Rng, thorough: bool, out: &mut Out) 
     }
 }
 
+/// `BigInt::two_adic_valuation` (a `pub const fn`) called at run time on arbitrary values: even values hit the
+/// `assert!(self.const_is_odd())`; the value 1 is skipped (the loop does not terminate on it)
+fn twoadic_ops<const N: usize>(rng: &mut Rng, thorough: bool, out: &mut Out) {
+    let mut vals = edge_values::<N>(rng, if thorough { 200 } else { 12 });
+    let more: Vec<[u64; N]> = vals.iter().map(|a| { let mut b = *a; b[0] |= 1; b }).collect();
+    vals.extend(more);
+    // 2^k + 1 for every k
+    for k in 1..(64 * N) { let mut a = [0u64; N]; a[k / 64] = 1 << (k % 64); a[0] |= 1; vals.push(a); }
+    vals.sort(); vals.dedup();
+    for a in vals {
+        if a[0] == 1 && a[1..].iter().all(|x| *x == 0) { continue; }
+        out.line(&format!("C20 twoadicity {:x} {}", N, h(&a)), &guarded(move || format!("{:x}", BigInt::<N>(a).two_adic_valuation())));
+    }
+}
+
 macro_rules! lit_table { ($fl:expr, $t:ident, $n:expr, $table:ident, $out:expr) => { montfp_table::<$t, $n>($fl, $table, $out); }; }
 macro_rules! big_table { ($n:expr, $table:ident, $out:expr) => { bigint_table::<$n>($table, $out); }; }
 macro_rules! derive_m { ($t:ident, $n:expr, $ms:expr, $gs:expr, $out:expr) => { derive_line::<$t, $n>($ms, $gs, $out); }; }
@@ -191,6 +206,8 @@ pub fn run(rng: &mut Rng, thorough: bool, out: &mut Out, only: &Option<String>) 
         bigfromstr_ops::<1>(rng, thorough, out); bigfromstr_ops::<2>(rng, thorough, out); bigfromstr_ops::<3>(rng, thorough, out);
         bigfromstr_ops::<4>(rng, thorough, out); bigfromstr_ops::<6>(rng, thorough, out); bigfromstr_ops::<12>(rng, thorough, out);
         bigfromstr_ops::<13>(rng, thorough, out);
+        twoadic_ops::<1>(rng, thorough, out); twoadic_ops::<2>(rng, thorough, out); twoadic_ops::<4>(rng, thorough, out);
+        twoadic_ops::<6>(rng, thorough, out); twoadic_ops::<13>(rng, thorough, out);
     }
     arkharness::for_each_zoo!(zoo_ops, rng, thorough, out, only);
     // shipped fields (derived configurations of ark-test-curves)
